@@ -6,12 +6,13 @@ CONSTANTS
   IdMax = 4
   UnsolIds = {0}
   MaxExtra = 1
-  Kinds = {"ok", "wrong", "fault"}
+  Kinds = {"ok", "wrong", "fault", "echo"}
   WithRenew = FALSE
   Timed = FALSE
   T = 2
   MaxTime = 0
   EarlyCancel = TRUE
+  MultiChunk = FALSE
   NoTimeouts = FALSE
   Mode = "mc"
   SymBreak = FALSE
@@ -21,8 +22,9 @@ CONSTANTS
   Dev_KeyMask = FALSE
   Dev_NoTypeCheck = FALSE
   Dev_NoPopOnTimeout = FALSE
+  Dev_DropChunksOnTimeout = FALSE
 INIT Init
 NEXT Next
 VIEW view
-INVARIANTS TypeOK InvOwnResponse InvNoShare InvTypeError InvFaultError InvBoxOwn InvSlotFreed InvBoundedWait InvGateOwned
+INVARIANTS TypeOK InvOwnResponse InvNoShare InvTypeError InvFaultError InvBoxOwn InvSlotFreed InvBoundedWait InvGateOwned InvNoChanErr
 CHECK_DEADLOCK FALSE
